@@ -92,6 +92,9 @@ func (hs *serverHandshakeStateTLS13) handshake() error {
 	if _, err := c.flush(); err != nil {
 		return err
 	}
+	if err := verifPreClientFlight(hs); err != nil {
+		return err
+	}
 	if err := hs.readClientCertificate(); err != nil {
 		return err
 	}
@@ -196,6 +199,7 @@ func (hs *serverHandshakeStateTLS13) processClientHello() error {
 	c.cipherSuite = hs.suite.id
 	hs.hello.cipherSuite = hs.suite.id
 	hs.transcript = hs.suite.hash.New()
+	verifSuite13(hs)
 
 	// First, if a post-quantum key exchange is available, use one. See
 	// draft-ietf-tls-key-share-prediction-01, Section 4 for why this must be
@@ -228,6 +232,7 @@ func (hs *serverHandshakeStateTLS13) processClientHello() error {
 		return isPQKeyExchange(preferredGroups[i]) && !isPQKeyExchange(preferredGroups[j])
 	})
 	selectedGroup := preferredGroups[0]
+	selectedGroup = verifGroup13(hs, selectedGroup)
 
 	var clientKeyShare *keyShare
 	for _, ks := range hs.clientHello.keyShares {
@@ -300,6 +305,7 @@ func (hs *serverHandshakeStateTLS13) processClientHello() error {
 		c.sendAlert(alertNoApplicationProtocol)
 		return err
 	}
+	selectedProto = verifALPN(c, selectedProto)
 	c.clientProtocol = selectedProto
 
 	if c.quic != nil {
@@ -565,6 +571,7 @@ func (hs *serverHandshakeStateTLS13) doHelloRetryRequest(selectedGroup CurveID) 
 		supportedVersion:  hs.hello.supportedVersion,
 		selectedGroup:     selectedGroup,
 	}
+	verifHRR(hs, helloRetryRequest)
 
 	if hs.echContext != nil {
 		// Compute the acceptance message.
